@@ -223,7 +223,7 @@ def main():
     searched = False
     if broken and not ctx.violations and args.tier == "quick" and hasattr(mod, "run"):
         searched = True
-        ctx2 = common.Ctx(prop, "thorough", seed + 1, model_ok=False, deadline=time.time() + 600)
+        ctx2 = common.Ctx(prop, "thorough", seed + 1, model_ok=False, deadline=time.time() + float(os.environ.get("VERIF_SEARCH_S", "240")))
         try:
             mod.run(ctx2)
         except Exception:
